@@ -4,7 +4,9 @@ import (
 	"encoding/json"
 	"os"
 	"reflect"
+	"regexp"
 	"runtime"
+	"sort"
 	"strings"
 
 	corev1 "k8s.io/api/core/v1"
@@ -47,7 +49,77 @@ func init() {
 		for i := 0; i < vt.NumField(); i++ {
 			jsonName[vt.Field(i).Name] = strings.Split(vt.Field(i).Tag.Get("json"), ",")[0]
 		}
+		// F2 (volumes): the volume-source table of the restricted volume-types control, recovered by running the registered check
+		// on every volume with one source set and with every pair of sources set (the source kinds are a finite set, so this
+		// is the whole table, however the function is written)
+		volumeProbe := map[string]any{}
+		{
+			var fn policy.CheckPodFn
+			for _, ck := range policy.DefaultChecks() {
+				if ck.ID == "restrictedVolumes" && len(ck.Versions) > 0 {
+					fn = ck.Versions[0].CheckPod
+				}
+			}
+			if fn == nil {
+				volumeProbe["error"] = "no registered check with ID restrictedVolumes"
+			} else {
+				quoted := regexp.MustCompile(`"([^"]*)"$`)
+				probe := func(fields ...int) (bool, string) {
+					vs := reflect.New(vt).Elem()
+					for _, i := range fields {
+						vs.Field(i).Set(reflect.New(vt.Field(i).Type.Elem()))
+					}
+					pod := &corev1.Pod{Spec: corev1.PodSpec{Volumes: []corev1.Volume{{Name: "v", VolumeSource: vs.Interface().(corev1.VolumeSource)}}}}
+					r := fn(&pod.ObjectMeta, &pod.Spec)
+					name := ""
+					if m := quoted.FindStringSubmatch(r.ForbiddenDetail); m != nil {
+						name = m[1]
+					}
+					return r.Allowed, name
+				}
+				_, def := probe()
+				var allowed []string
+				var bad []int
+				nameOf := map[int]string{}
+				var problems []string
+				for i := 0; i < vt.NumField(); i++ {
+					ok, name := probe(i)
+					switch {
+					case ok:
+						allowed = append(allowed, jsonName[vt.Field(i).Name])
+					case name != def:
+						bad = append(bad, i)
+						nameOf[i] = name
+					}
+				}
+				first := func(i, j int) bool { _, n := probe(i, j); return n == nameOf[i] }
+				sort.SliceStable(bad, func(x, y int) bool { return first(bad[x], bad[y]) && !(nameOf[bad[x]] == nameOf[bad[y]]) })
+				for x := range bad {
+					for y := x + 1; y < len(bad); y++ {
+						if _, n := probe(bad[x], bad[y]); n != nameOf[bad[x]] {
+							problems = append(problems, "no fixed precedence between "+nameOf[bad[x]]+" and "+nameOf[bad[y]])
+						}
+					}
+				}
+				for i := 0; i < vt.NumField(); i++ {
+					if ok, _ := probe(i); ok {
+						for _, b := range bad {
+							if ok2, _ := probe(i, b); !ok2 {
+								problems = append(problems, "allowed source "+vt.Field(i).Name+" does not take precedence over "+nameOf[b])
+							}
+						}
+					}
+				}
+				sort.Strings(allowed)
+				var pairs [][2]string
+				for _, b := range bad {
+					pairs = append(pairs, [2]string{jsonName[vt.Field(b).Name], nameOf[b]})
+				}
+				volumeProbe["allowed"], volumeProbe["bad"], volumeProbe["default"], volumeProbe["problems"] = allowed, pairs, def, problems
+			}
+		}
 		out := map[string]any{
+			"volumeProbe":  volumeProbe,
 			"default":      dump(policy.DefaultChecks()),
 			"experimental": dump(policy.ExperimentalChecks()),
 			"tables":       policy.VerifTables(),
